@@ -337,7 +337,7 @@ impl<'a> Gen<'a> {
     }
 
     pub fn block(&mut self) -> Block {
-        if self.rng.chance(1, 40) {
+        if self.rng.chance(1, 20) {
             // blocks without content: an empty quote, empty list items
             return match self.rng.below(4) {
                 0 => Block::Raw(">".into()),
@@ -371,6 +371,17 @@ impl<'a> Gen<'a> {
         let n = self.rng.range(0, self.cfg.max_blocks);
         for _ in 0..n {
             blocks.push(self.block());
+        }
+        if self.rng.chance(1, 60) {
+            // a long flat note: many blocks in a row on one level (sibling chains, not nesting)
+            let m = self.rng.range(60, 90);
+            for i in 0..m {
+                if i % 9 == 4 {
+                    blocks.push(Block::Heading { level: 2, inl: self.words(1, 2), setext: false });
+                } else {
+                    blocks.push(Block::Para(vec![self.words(1, 2)]));
+                }
+            }
         }
         let front = if self.rng.chance(1, 10) { Some(format!("title: {}", self.word())) } else { None };
         Doc { front, blocks, trailing_newline: self.rng.chance(4, 5) }
